@@ -86,10 +86,36 @@ def run(chk):
             raise checklib.Infra("Apalache refutes %s (a statement about the specification alone, independent of /repo): %s" % (r["inv"], r["cmd"]))
     chk.notes.append("Apalache: 5 statements over all byte strings of length 0..4 (and pairs, and all integers below 2^31 in magnitude) hold; the false one is refuted")
     chk.build()
+    # every opcode that reads a number reads it through this codec: each numeric opcode on every one-byte string, the two- to six-byte
+    # boundary strings, with and without the minimal-encoding requirement (accepted / rejected, and the value it computed from it)
+    import gen_scripts as G
+    from drivers import SessionJob
+    import drivers as D
+    O = G.OP
+    strings = [bytes([a]) for a in range(256)] + [bytes(t) for n_ in (2, 3, 4, 5) for t in itertools.product((0x00, 0x01, 0x7f, 0x80, 0xff), repeat=n_) if n_ < 4 or t[0] in (0, 0xff)] \
+              + [b"\x00" * 6, b"\x01" + b"\x00" * 5]
+    if not quick:
+        strings += [bytes([a, b_]) for a in range(256) for b_ in range(256)]
+    unary = ["1ADD", "1SUB", "NEGATE", "ABS", "NOT", "0NOTEQUAL"]
+    opjobs = []
+    k = 0
+    for b_ in strings:
+        for fl in ([], ["MINIMALDATA"]):
+            for opn in unary:
+                k += 1
+                opjobs.append(SessionJob("n%d:%s" % (k, opn), bytes([O[opn]]), [b_], fl, ("BASE", "WITNESS_V0", "TAPSCRIPT")[k % 3], cmds=["steps"], cmp=D.CMP_C01))
+            if len(b_) != 1 or b_[0] in (0, 1, 2, 0x7f, 0x80, 0x81, 0xff):
+                for opn, st in (("ADD", [b"\x01", b_]), ("ADD", [b_, b"\x01"]), ("SUB", [b_, b_]), ("NUMEQUAL", [b_, b""]), ("LESSTHAN", [b"", b_]), ("MIN", [b_, b"\x05"]), ("BOOLAND", [b_, b"\x01"]),
+                                ("WITHIN", [b_, b"", b"\x09"]), ("WITHIN", [b"\x02", b_, b"\x09"]), ("WITHIN", [b"", b"\x02", b_]), ("PICK", [b"\x07", b"\x08", b_]), ("ROLL", [b"\x07", b"\x08", b_]),
+                                ("CHECKLOCKTIMEVERIFY", [b_]), ("CHECKSEQUENCEVERIFY", [b_]), ("CHECKMULTISIG", [b"", b"", b_]), ("CHECKMULTISIG", [b"", b_, b"\x07" * 33, b"\x01"])):
+                    k += 1
+                    fl2 = fl + (["CHECKLOCKTIMEVERIFY", "CHECKSEQUENCEVERIFY"] if opn.startswith("CHECK") and k % 2 else [])
+                    opjobs.append(SessionJob("n%d:%s" % (k, opn), bytes([O[opn]]), st, fl2, "BASE", cmds=["steps"], cmp=D.CMP_C01))
+    divs0 = chk.validate("Trace_Session", opjobs, "c18ops")
     lines = num_lines(chk) + enc_lines(chk)
     chunk = 4000
     jobs = [CallJob("calls%d" % i, lines[i:i + chunk]) for i in range(0, len(lines), chunk)]
-    divs = chk.validate("Trace_Calls", jobs, "c18")
+    divs = divs0 + chk.validate("Trace_Calls", jobs, "c18")
     chk.evaluations = len(lines)
     chk.distinct = set(lines)
     chk.traces = len(lines)
